@@ -24,6 +24,8 @@ use std::time::{Duration, Instant};
 
 #[path = "../c01_corr.rs"]
 mod corr;
+#[path = "../c01_rules.rs"]
+mod rules;
 
 // ---------------------------------------------------------------------------------------------
 // panic capture with location (the hook installed by hv::cli() remembers it per thread)
@@ -1085,6 +1087,10 @@ pub fn run(a: &Args, corpus: &[Value]) {
             if let Err(m) = guarded(|| scaling_probe(&mut rep, a)) {
                 rep.fail("panic_unattributed", format!("panic in lint at {}: {m} (scaling probe)", last_panic_location()), v.clone());
             }
+        } else if v["kind"].as_str().map(|k| k.starts_with("rule_body")).unwrap_or(false) {
+            if let Err(m) = guarded(|| rules::replay(&mut rep, v)) {
+                rep.fail("panic_unattributed", format!("panic at {}: {m} (rule-body stream)", last_panic_location()), v.clone());
+            }
         } else if let Err(m) = guarded(|| corr::replay(&mut rep, v)) {
             rep.fail("panic", format!("panic in lint at {}: {m} (correspondence replay)", last_panic_location()), v.clone());
         }
@@ -1139,6 +1145,11 @@ pub fn run(a: &Args, corpus: &[Value]) {
     if let Err(m) = guarded(|| corr::run(&mut rep, a, &mut corr_rng)) {
         let loc = last_panic_location();
         rep.fail("panic_unattributed", format!("panic in lint at {}: {} (while setting up the correspondence)", loc.strip_prefix("/repo/").unwrap_or(&loc), m.chars().take(300).collect::<String>()), json!({"kind": "corr_fixed"}));
+    }
+    // rule bodies: the lengths match_to_lint really receives vs min_len / max_len of the generated table
+    if let Err(m) = guarded(|| rules::run(&mut rep, a)) {
+        let loc = last_panic_location();
+        rep.fail("panic_unattributed", format!("panic at {}: {} (rule-body stream set-up)", loc.strip_prefix("/repo/").unwrap_or(&loc), m.chars().take(300).collect::<String>()), json!({"kind": "rule_body_all"}));
     }
     if let Err(m) = guarded(|| scaling_probe(&mut rep, a)) {
         let loc = last_panic_location();
